@@ -147,6 +147,64 @@ mod proofs {
     std::mem::forget(src);
   }
 
+  /// two lines of one symbolic character each ("?\n?" preceded by `from` spaces, the second
+  /// line indented `from` more): the smallest text on which re-indentation by a non-zero
+  /// shift is observable; small unwinding bound (the text is <= 8 bytes)
+  fn roundtrip2(from: usize, to: usize) {
+    let mut text = [b'x'; 16];
+    let mut n = 0;
+    let mut i = 0;
+    while i < from {
+      text[n] = b' ';
+      n += 1;
+      i += 1;
+    }
+    let start = n;
+    text[n] = if kani::any() { b'x' } else { b'y' };
+    n += 1;
+    text[n] = b'\n';
+    n += 1;
+    let mut i = 0;
+    while i < from {
+      text[n] = b' ';
+      n += 1;
+      i += 1;
+    }
+    text[n] = if kani::any() { b'x' } else { b'y' };
+    n += 1;
+    let src = unsafe { String::from_utf8_unchecked(text[..n].to_vec()) };
+    let ex = extract_with_deindent(&src, start..n);
+    let got = indent_lines::<String>(to, ex);
+    let mut want = [0u8; 32];
+    let wn = spec_shift(&text[start..n], from, to, &mut want);
+    assert!(got.len() == wn, "re-indented length");
+    let mut i = 0;
+    while i < 8 {
+      if i < wn {
+        assert!(got[i] == want[i], "continuation lines keep their relative indentation, shifted to the new column");
+      }
+      i += 1;
+    }
+    kani::cover!(wn > n - start);
+    kani::cover!(wn < n - start);
+    std::mem::forget(got);
+    std::mem::forget(src);
+  }
+  macro_rules! rt2_harness {
+    ($name:ident, $from:expr, $to:expr) => {
+      #[kani::proof]
+      #[kani::unwind(10)]
+      fn $name() {
+        roundtrip2($from, $to);
+      }
+    };
+  }
+  rt2_harness!(c07_indent_shift2_0_to_1, 0, 1);
+  rt2_harness!(c07_indent_shift2_0_to_2, 0, 2);
+  rt2_harness!(c07_indent_shift2_1_to_0, 1, 0);
+  rt2_harness!(c07_indent_shift2_1_to_2, 1, 2);
+  rt2_harness!(c07_indent_shift2_2_to_1, 2, 1);
+
   macro_rules! rt_harness {
     ($name:ident, $from:expr, $to:expr, $lens:expr, $extra:expr) => {
       #[kani::proof]
